@@ -34,7 +34,7 @@ def floors(tier):
     return {"evaluations": 800 if q else 12000, "distinct_nontrivial": 250 if q else 4000, "kind:synth": 500 if q else 8000,
             "kind:curated": 200 if q else 3000, "cycles_checked": 1000 if q else 20000, "no_cycle": 40 if q else 600,
             "start:998": 80 if q else 1200, "start:5000": 80 if q else 1200, "self_loops": 100 if q else 1500, "mem_cycles": 10 if q else 150,
-            "flags_on": 150 if q else 2500, "summary_checked": 700 if q else 10000, "lcd_column_checked": 400 if q else 6000, "refdeps_compared": 400 if q else 6000}
+            "flags_on": 150 if q else 2500, "summary_checked": 700 if q else 10000, "lcd_column_checked": 400 if q else 6000, "report_lcd_column_checked": 400 if q else 6000, "maximum_cycle_with_zero_latency_member": 20 if q else 300, "refdeps_compared": 400 if q else 6000}
 
 
 def plan(tier, seed):
@@ -142,6 +142,25 @@ def judge(isa, kernel_ast, forms, dg, mm, sem, parser, text, flags, start, R, ca
                             % (list(marked), want, [list(c) for c in maxima][:3]), case)
         elif marked:
             R.violation("column/marks-lines-without-any-cycle", "per-line LCD values %s although no loop-carried dependency is reported" % (list(marked),), case)
+        # the LCD column of the text report: a filled cell on exactly the members of one maximum cycle (a member whose edge weighs
+        # 0 shows 0.0, a non-member an empty cell)
+        from .. import report_parse
+
+        rep = report_parse.parse_report(fe.full_analysis(forms, dg, ignore_unknown=True))
+        if rep["problems"] or any(r["problems"] for r in rep["rows"]):
+            R.count("report_not_parsed")
+        else:
+            R.count("report_lcd_column_checked")
+            by_ln = {f.line_number: i for i, f in enumerate(forms)}
+            cells = tuple(sorted(by_ln[r["line_number"]] for r in rep["rows"] if r["lcd"] != "" and r["line_number"] in by_ln))
+            member_sets = [tuple(sorted(i for i, w in c)) for c in maxima]
+            if any(any(w == 0.0 for i, w in c) for c in maxima):
+                R.count("maximum_cycle_with_zero_latency_member")
+            if obs and cells not in member_sets:
+                R.violation("column/report-cells-are-not-the-members-of-a-maximum-cycle", "LCD column of the report is filled on lines %s, members of the cycles attaining the maximum: %s"
+                            % ([i + 1 for i in cells], [[i + 1 for i in m] for m in member_sets][:3]), case)
+            elif not obs and cells:
+                R.violation("column/marks-lines-without-any-cycle", "LCD column of the report is filled on lines %s although no loop-carried dependency is reported" % ([i + 1 for i in cells],), case)
     except Exception as e:  # noqa
         R.exception(e, case, prefix="summary/")
     return len(ref) >= 2 or any(len(c) >= 3 for c in ref)
